@@ -548,3 +548,809 @@ Proof.
 Qed.
 
 End Inv.
+
+Section InvGet.
+Variable fa : bool.
+Variable src : str.
+Local Notation W := (wfs src).
+Local Notation awf := (awf fa src).
+
+Lemma awf_start : forall a n sp, awf a -> a_start a = Some (n, sp) -> W sp.
+Proof. intros a n sp H E. destruct H as (H1 & _). rewrite E in H1. exact H1. Qed.
+Lemma awf_expect : forall a n sp, awf a -> a_expect a = Some (n, sp) -> W sp.
+Proof. intros a n sp H E. destruct H as (_ & _ & _ & _ & _ & _ & _ & _ & H9 & _). rewrite E in H9. exact H9. Qed.
+Lemma awf_expectrr : forall a n sp, awf a -> a_expectrr a = Some (n, sp) -> W sp.
+Proof. intros a n sp H E. destruct H as (_ & _ & _ & _ & _ & _ & _ & _ & _ & H10 & _). rewrite E in H10. exact H10. Qed.
+Lemma awf_epp_get : forall a n orig x, awf a -> assoc_get (a_epp a) n = Some (orig, x) -> W orig.
+Proof.
+  intros a n orig x H E. destruct H as (_ & _ & _ & _ & _ & _ & _ & H8 & _).
+  destruct (assoc_get_In _ _ _ E) as [k Hk]. rewrite Forall_forall in H8. exact (proj1 (H8 _ Hk)).
+Qed.
+Lemma awf_precs_get : forall a n x orig, awf a -> assoc_get (a_precs a) n = Some (x, orig) -> W orig.
+Proof.
+  intros a n x orig H E. destruct H as (_ & _ & _ & _ & H5 & _).
+  destruct (assoc_get_In _ _ _ E) as [k Hk]. rewrite Forall_forall in H5. exact (H5 _ Hk).
+Qed.
+Lemma awf_avoid : forall a m, awf a -> a_avoid_insert a = Some m -> nsp_wf src m.
+Proof. intros a m H E. destruct H as (_ & _ & _ & _ & _ & H6 & _). rewrite E in H6. exact H6. Qed.
+Lemma awf_implicit : forall a m, awf a -> a_implicit_tokens a = Some m -> nsp_wf src m.
+Proof. intros a m H E. destruct H as (_ & _ & _ & _ & _ & _ & H7 & _). rewrite E in H7. exact H7. Qed.
+Lemma nsp_get : forall m n orig, nsp_wf src m -> assoc_get m n = Some orig -> W orig.
+Proof.
+  intros m n orig H E. destruct (assoc_get_In _ _ _ E) as [k Hk]. unfold nsp_wf in H.
+  rewrite Forall_forall in H. exact (H _ Hk).
+Qed.
+Lemma nsp_snoc : forall m n sp, nsp_wf src m -> W sp -> nsp_wf src (m ++ [(n, sp)]).
+Proof. intros m n sp H Hw. unfold nsp_wf. apply Forall_snoc; assumption. Qed.
+End InvGet.
+
+(* ======================================================================== *)
+(*  parse_declarations                                                        *)
+(* ======================================================================== *)
+Section Decls.
+Variable fixed fixed_aspan : bool.
+Variable kind : ykind.
+Variable src : str.
+Variable fuel : nat.
+Hypothesis Hfuel : byte_len src < fuel.
+Let len := byte_len src.
+
+Local Notation SI := (SI fixed_aspan src).
+Local Notation sg := (sg fixed_aspan src).
+Local Notation awf := (awf fixed_aspan src).
+Local Notation W := (wfs src).
+Local Notation V := (vpos src).
+Local Notation WS := (ws fixed src len fuel).
+
+Lemma ws_sg : forall st i inc, SI st -> V i -> sg V (WS st i inc).
+Proof.
+  intros st i inc HI Hv. unfold ws.
+  pose proof (parse_ws_E fixed src fuel (nn st) i inc Hfuel Hv) as H. fold len in H.
+  destruct (parse_ws fixed src len fuel (nn st) i inc) as [[[j n]|e]| |]; simpl in *; try exact I;
+    split; assumption.
+Qed.
+
+Definition lookP (s : str) (i : nat) (la : option nat) : Prop :=
+  look_post src s i la /\ lookahead_is src s i = Done la.
+
+Lemma look_sg : forall st s i, SI st -> V i -> sg (lookP s i) (look src st s i).
+Proof.
+  intros st s i HI Hv. unfold look. destruct (vpos_look src s i Hv) as [o [H P]].
+  rewrite H. simpl. split; [exact HI | split; [exact P | exact H]].
+Qed.
+
+Lemma lookP_some : forall s i j, lookP s i (Some j) -> V j /\ j = i + byte_len s.
+Proof. intros s i j [[H1 H2] _]. split; assumption. Qed.
+
+(* bind helpers *)
+Ltac bws st i HI Hv :=
+  eapply sg_bind; [apply ws_sg; eassumption |]; intros st i HI Hv.
+Ltac blook st la HI Hla :=
+  eapply sg_bind; [apply look_sg; eassumption |]; intros st la HI Hla.
+Ltac blift L st t HI Ht :=
+  eapply sg_bind; [apply sg_lift; [eassumption | apply L; eassumption] |]; intros st t HI Ht.
+Ltac bspan st sp HI Hsp :=
+  eapply sg_bind; [apply sg_span; eassumption |]; intros st sp HI Hsp.
+
+Lemma token_loop_sg : forall f st i, SI st -> V i -> sg V (token_loop fixed src len fuel f st i).
+Proof.
+  induction f as [|f IH]; intros st i HI Hv; [exact I|].
+  cbn [token_loop]. destruct (negb (i <? len)); [apply sg_ret; assumption|].
+  blook st1 la HI1 Hla. destruct la as [k|]; cbn [is_some]; [apply sg_ret; assumption|].
+  blift parse_token_E st2 t HI2 Ht. destruct t as [[[j n] sp] q]. simpl in Ht. destruct Ht as [Hvj Hsp].
+  destruct (insert_full (a_tokens (ast st2)) n) as [[idx fresh] toks].
+  eapply sg_bind; [apply ws_sg; [|exact Hvj] |].
+  { apply SI_set_ast; [exact HI2|]. apply awf_upd_tokdirs.
+    destruct fresh; [apply awf_upd_tokspans; [apply SI_awf; exact HI2 | exact Hsp] | apply SI_awf; exact HI2]. }
+  intros st3 i' HI3 Hv3. apply IH; assumption.
+Qed.
+
+Lemma decl_token_sg : forall st j, SI st -> V j -> sg V (decl_token fixed src len fuel st j).
+Proof.
+  intros st j HI Hv. unfold decl_token. bws st1 i HI1 Hvi. apply token_loop_sg; assumption.
+Qed.
+
+Lemma decl_actiontype_sg : forall st j, SI st -> V j -> sg V (decl_actiontype fixed src len fuel st j).
+Proof.
+  intros st j HI Hv. unfold decl_actiontype. bws st1 i HI1 Hvi.
+  eapply sg_bind; [apply sg_lift; [exact HI1 | apply parse_to_eol_E; assumption] |].
+  intros st2 t HI2 Ht. destruct t as [j2 n]. simpl in Ht.
+  bspan st3 sp HI3 Hsp.
+  eapply sg_bind with (P := fun _ : unit => True).
+  { destruct (gat st3) as [[g orig]|] eqn:Hg.
+    - apply sg_dup; [exact HI3 | | exact Hsp]. destruct HI3 as [_ [_ H3]]. rewrite Hg in H3. exact H3.
+    - apply sg_ret; [apply SI_set_gat; assumption | exact I]. }
+  intros st4 u HI4 _. apply ws_sg; assumption.
+Qed.
+
+Lemma decl_start_sg : forall st j, SI st -> V j -> sg V (decl_start fixed src len fuel st j).
+Proof.
+  intros st j HI Hv. unfold decl_start. bws st1 i HI1 Hvi.
+  blift parse_name_E st2 t HI2 Ht. destruct t as [j2 n]. simpl in Ht.
+  bspan st3 sp HI3 Hsp.
+  eapply sg_bind with (P := fun _ : unit => True).
+  { destruct (a_start (ast st3)) as [[g orig]|] eqn:Hg.
+    - apply sg_dup; [exact HI3 | | exact Hsp]. eapply awf_start; [apply SI_awf; exact HI3 | exact Hg].
+    - apply sg_ret; [|exact I]. apply SI_set_ast; [exact HI3|]. apply awf_upd_start; [apply SI_awf; exact HI3 | exact Hsp]. }
+  intros st4 u HI4 _. apply ws_sg; assumption.
+Qed.
+
+Lemma decl_epp_sg : forall st j, SI st -> V j -> sg V (decl_epp fixed src len fuel st j).
+Proof.
+  intros st j HI Hv. unfold decl_epp. bws st1 i HI1 Hvi.
+  blift parse_token_E st2 t HI2 Ht. destruct t as [[[j2 n] sp0] q]. simpl in Ht. destruct Ht as [Hv2 _].
+  bspan st3 sp HI3 Hsp.
+  bws st4 i4 HI4 Hv4.
+  eapply sg_bind; [apply sg_lift; [exact HI4 | apply parse_string_E; exact Hv4] |].
+  intros st5 t2 HI5 Ht2. destruct t2 as [j5 v]. simpl in Ht2.
+  bspan st6 vsp HI6 Hvsp.
+  eapply sg_bind with (P := fun _ : unit => True).
+  { destruct (assoc_get (a_epp (ast st6)) n) as [[orig vv]|] eqn:Hg.
+    - apply sg_dup; [exact HI6 | | exact Hsp]. eapply awf_epp_get; [apply SI_awf; exact HI6 | exact Hg].
+    - apply sg_ret; [|exact I]. apply SI_set_ast; [exact HI6|].
+      apply awf_upd_epp; [apply SI_awf; exact HI6 | exact Hsp | exact Hvsp]. }
+  intros st7 u HI7 _. apply ws_sg; assumption.
+Qed.
+
+Lemma decl_expectrr_sg : forall st j, SI st -> V j -> sg V (decl_expectrr fixed src len fuel st j).
+Proof.
+  intros st j HI Hv. unfold decl_expectrr. bws st1 i HI1 Hvi.
+  eapply sg_bind; [apply sg_lift; [exact HI1 | apply parse_int_E; assumption] |].
+  intros st2 t HI2 Ht. destruct t as [j2 n]. simpl in Ht.
+  bspan st3 sp HI3 Hsp.
+  eapply sg_bind with (P := fun _ : unit => True).
+  { destruct (a_expectrr (ast st3)) as [[g orig]|] eqn:Hg.
+    - apply sg_dup; [exact HI3 | | exact Hsp]. eapply awf_expectrr; [apply SI_awf; exact HI3 | exact Hg].
+    - apply sg_ret; [|exact I]. apply SI_set_ast; [exact HI3|]. apply awf_upd_expectrr; [apply SI_awf; exact HI3 | exact Hsp]. }
+  intros st4 u HI4 _. apply ws_sg; assumption.
+Qed.
+
+Lemma decl_expect_sg : forall st j, SI st -> V j -> sg V (decl_expect fixed src len fuel st j).
+Proof.
+  intros st j HI Hv. unfold decl_expect. bws st1 i HI1 Hvi.
+  eapply sg_bind; [apply sg_lift; [exact HI1 | apply parse_int_E; assumption] |].
+  intros st2 t HI2 Ht. destruct t as [j2 n]. simpl in Ht.
+  bspan st3 sp HI3 Hsp.
+  eapply sg_bind with (P := fun _ : unit => True).
+  { destruct (a_expect (ast st3)) as [[g orig]|] eqn:Hg.
+    - apply sg_dup; [exact HI3 | | exact Hsp]. eapply awf_expect; [apply SI_awf; exact HI3 | exact Hg].
+    - apply sg_ret; [|exact I]. apply SI_set_ast; [exact HI3|]. apply awf_upd_expect; [apply SI_awf; exact HI3 | exact Hsp]. }
+  intros st4 u HI4 _. apply ws_sg; assumption.
+Qed.
+
+Lemma decl_parse_generics_sg : forall st j, SI st -> V j -> sg V (decl_parse_generics fixed src len fuel st j).
+Proof.
+  intros st j HI Hv. unfold decl_parse_generics. bws st1 i HI1 Hvi.
+  eapply sg_bind; [apply sg_lift; [exact HI1 | apply parse_to_eol_E; assumption] |].
+  intros st2 t HI2 Ht. destruct t as [j2 ty]. simpl in Ht.
+  apply ws_sg; [|exact Ht]. apply SI_set_ast; [exact HI2|]. apply awf_upd_parse_generics. apply SI_awf; exact HI2.
+Qed.
+
+Lemma decl_parse_param_sg : forall st j, SI st -> V j -> sg V (decl_parse_param fixed src len fuel st j).
+Proof.
+  intros st j HI Hv. unfold decl_parse_param. bws st1 i HI1 Hvi.
+  eapply sg_bind.
+  { apply sg_lift_nn with (P := fun r : nat * str => V (fst r)); [exact HI1|].
+    exact (parse_to_single_colon_E src fuel (nn st1) i Hvi). }
+  intros st2 t HI2 Ht. destruct t as [j2 name]. simpl in Ht.
+  blook st3 la HI3 Hla. destruct la as [j3|]; [|apply sg_fail; assumption].
+  destruct (lookP_some _ _ _ Hla) as [Hv3 _].
+  bws st4 i4 HI4 Hv4.
+  eapply sg_bind; [apply sg_lift; [exact HI4 | apply parse_to_eol_E; assumption] |].
+  intros st5 t2 HI5 Ht2. destruct t2 as [j5 ty]. simpl in Ht2.
+  apply ws_sg; [|exact Ht2]. apply SI_set_ast; [exact HI5|]. apply awf_upd_parse_param. apply SI_awf; exact HI5.
+Qed.
+
+Lemma expect_unused_loop_sg : forall f st i, SI st -> V i ->
+  sg V (expect_unused_loop fixed src len fuel f st i).
+Proof.
+  induction f as [|f IH]; intros st i HI Hv; [exact I|].
+  cbn [expect_unused_loop]. destruct (negb (i <? len)); [apply sg_ret; assumption|].
+  blook st1 la HI1 Hla. destruct la as [k|]; cbn [is_some]; [apply sg_ret; assumption|].
+  eapply sg_bind with (P := V).
+  { pose proof (parse_name_E src i Hv) as Hn.
+    destruct (parse_name src i) as [[[j n]|e]| |]; simpl in Hn; try exact I.
+    - bspan st2 sp HI2 Hsp. apply sg_ret; [|exact Hn]. apply SI_set_ast; [exact HI2|].
+      apply awf_upd_expect_unused; [apply SI_awf; exact HI2 | exact Hsp].
+    - pose proof (parse_token_E src i Hv) as Ht.
+      destruct (parse_token src i) as [[[[[j n] sp] q]|e']| |]; simpl in Ht; try exact I.
+      + destruct Ht as [Hvj Hsp]. apply sg_ret; [|exact Hvj]. apply SI_set_ast; [exact HI1|].
+        apply awf_upd_expect_unused; [apply SI_awf; exact HI1 | exact Hsp].
+      + apply sg_fail; assumption. }
+  intros st2 j HI2 Hvj. bws st3 i' HI3 Hvi'. apply IH; assumption.
+Qed.
+
+Lemma decl_expect_unused_sg : forall st j, SI st -> V j -> sg V (decl_expect_unused fixed src len fuel st j).
+Proof.
+  intros st j HI Hv. unfold decl_expect_unused. bws st1 i HI1 Hvi. apply expect_unused_loop_sg; assumption.
+Qed.
+
+Lemma avoid_loop_sg : forall f st kwend i nn0, SI st -> V i ->
+  sg V (avoid_loop fixed src len fuel f st kwend i nn0).
+Proof.
+  induction f as [|f IH]; intros st kwend i nn0 HI Hv; [exact I|].
+  cbn [avoid_loop]. destruct (negb ((kwend <? len) && (nn st =? nn0))); [apply sg_ret; assumption|].
+  blift parse_token_E st2 t HI2 Ht. destruct t as [[[j n] sp] q]. simpl in Ht. destruct Ht as [Hvj Hsp].
+  assert (Ha1 : awf (tokens_insert (ast st2) n sp))
+    by (apply awf_tokens_insert; [apply SI_awf; exact HI2 | exact Hsp]).
+  destruct (a_avoid_insert (tokens_insert (ast st2) n sp)) as [m|] eqn:Hm; [|exact I].
+  pose proof (awf_avoid _ _ _ _ Ha1 Hm) as Hmw.
+  eapply sg_bind with (P := fun _ : unit => True).
+  { destruct (assoc_get m n) as [orig|] eqn:Hg.
+    - apply sg_dup; [apply SI_set_ast; assumption | eapply nsp_get; eassumption | exact Hsp].
+    - apply sg_ret; [|exact I]. apply SI_set_ast; [exact HI2|].
+      apply awf_upd_avoid; [exact Ha1 | apply nsp_snoc; assumption]. }
+  intros st3 u HI3 _. bws st4 i' HI4 Hvi'. apply IH; assumption.
+Qed.
+
+Lemma decl_avoid_insert_sg : forall st j, SI st -> V j -> sg V (decl_avoid_insert fixed src len fuel st j).
+Proof.
+  intros st j HI Hv. unfold decl_avoid_insert. bws st1 i HI1 Hvi.
+  apply avoid_loop_sg; [|exact Hvi].
+  destruct (a_avoid_insert (ast st1)); [exact HI1|].
+  apply SI_set_ast; [exact HI1|]. apply awf_upd_avoid; [apply SI_awf; exact HI1 | constructor].
+Qed.
+
+Lemma implicit_loop_sg : forall f st kwend i nn0, SI st -> V i ->
+  sg V (implicit_loop fixed src len fuel f st kwend i nn0).
+Proof.
+  induction f as [|f IH]; intros st kwend i nn0 HI Hv; [exact I|].
+  cbn [implicit_loop]. destruct (negb ((kwend <? len) && (nn st =? nn0))); [apply sg_ret; assumption|].
+  blift parse_token_E st2 t HI2 Ht. destruct t as [[[j n] sp] q]. simpl in Ht. destruct Ht as [Hvj Hsp].
+  assert (Ha1 : awf (tokens_insert (ast st2) n sp))
+    by (apply awf_tokens_insert; [apply SI_awf; exact HI2 | exact Hsp]).
+  destruct (a_implicit_tokens (tokens_insert (ast st2) n sp)) as [m|] eqn:Hm; [|exact I].
+  pose proof (awf_implicit _ _ _ _ Ha1 Hm) as Hmw.
+  eapply sg_bind with (P := fun _ : unit => True).
+  { destruct (assoc_get m n) as [orig|] eqn:Hg.
+    - apply sg_dup; [apply SI_set_ast; assumption | eapply nsp_get; eassumption | exact Hsp].
+    - apply sg_ret; [|exact I]. apply SI_set_ast; [exact HI2|].
+      apply awf_upd_implicit; [exact Ha1 | apply nsp_snoc; assumption]. }
+  intros st3 u HI3 _. bws st4 i' HI4 Hvi'. apply IH; assumption.
+Qed.
+
+Lemma decl_implicit_tokens_sg : forall st j, SI st -> V j -> sg V (decl_implicit_tokens fixed src len fuel st j).
+Proof.
+  intros st j HI Hv. unfold decl_implicit_tokens. bws st1 i HI1 Hvi.
+  apply implicit_loop_sg; [|exact Hvi].
+  destruct (a_implicit_tokens (ast st1)); [exact HI1|].
+  apply SI_set_ast; [exact HI1|]. apply awf_upd_implicit; [apply SI_awf; exact HI1 | constructor].
+Qed.
+
+Lemma prec_loop_sg : forall f st i nn0 level k, SI st -> V i ->
+  sg V (prec_loop fixed src len fuel f st i nn0 level k).
+Proof.
+  induction f as [|f IH]; intros st i nn0 level k HI Hv; [exact I|].
+  cbn [prec_loop]. destruct (negb ((i <? len) && (nn0 =? nn st))); [apply sg_ret; assumption|].
+  blift parse_token_E st2 t HI2 Ht. destruct t as [[[j n] sp] q]. simpl in Ht. destruct Ht as [Hvj Hsp].
+  eapply sg_bind with (P := fun _ : unit => True).
+  { destruct (assoc_get (a_precs (ast st2)) n) as [[pp orig]|] eqn:Hg.
+    - apply sg_dup; [exact HI2 | | exact Hsp]. eapply awf_precs_get; [apply SI_awf; exact HI2 | exact Hg].
+    - apply sg_ret; [|exact I]. apply SI_set_ast; [exact HI2|].
+      apply awf_upd_precs; [apply SI_awf; exact HI2 | exact Hsp]. }
+  intros st3 u HI3 _. bws st4 i' HI4 Hvi'. apply IH; assumption.
+Qed.
+
+Lemma decl_prec_sg : forall st j level k, SI st -> V j -> sg V (decl_prec fixed src len fuel st j level k).
+Proof.
+  intros st j level k HI Hv. unfold decl_prec. bws st1 i HI1 Hvi. apply prec_loop_sg; assumption.
+Qed.
+
+Lemma look_sgV : forall st s i, SI st -> V i -> sg (oforall V) (look src st s i).
+Proof.
+  intros st s i HI Hv. eapply sg_weaken; [|apply look_sg; assumption].
+  intros [j|] H; simpl; [exact (proj1 (lookP_some _ _ _ H)) | exact I].
+Qed.
+
+(* one directive of parse_declarations: lookahead, handler, next iteration *)
+Ltac dir IH L :=
+  eapply sg_bind; [apply look_sgV; eassumption |];
+  let st := fresh "st" in let la := fresh "la" in let HI := fresh "HI" in let Hla := fresh "Hla" in
+  intros st la HI Hla; destruct la as [?j|];
+  [ simpl in Hla; eapply sg_bind; [apply L; eassumption |];
+    let st' := fresh "st" in let i' := fresh "i" in let HI' := fresh "HI" in let Hv' := fresh "Hv" in
+    intros st' i' HI' Hv'; apply IH; assumption
+  | clear Hla ].
+
+Lemma decl_loop_sg : forall f st i pl, SI st -> V i -> sg V (decl_loop fixed kind src len fuel f st i pl).
+Proof.
+  induction f as [|f IH]; intros st i pl HI Hv; [exact I|].
+  cbn [decl_loop]. destruct (negb (i <? len)).
+  { destruct (i =? len); [apply sg_fail; assumption | exact I]. }
+  cbn zeta.
+  blook st1 la1 HI1 Hla1. destruct la1 as [k1|]; cbn [is_some]; [apply sg_ret; assumption|]. clear Hla1.
+  dir IH decl_token_sg.
+  eapply sg_bind with (P := oforall V).
+  { destruct (is_original kind); [apply look_sgV; assumption | apply sg_ret; [assumption | exact I]]. }
+  intros mst3 mla3 mHI3 mHla3. destruct mla3 as [mj3|].
+  { simpl in mHla3. eapply sg_bind; [apply decl_actiontype_sg; eassumption |].
+    intros mst4 mi4 mHI4 mHv4. apply IH; assumption. }
+  clear mHla3.
+  dir IH decl_start_sg.
+  dir IH decl_epp_sg.
+  dir IH decl_expectrr_sg.
+  dir IH decl_expect_unused_sg.
+  dir IH decl_expect_sg.
+  dir IH decl_avoid_insert_sg.
+  dir IH decl_parse_param_sg.
+  dir IH decl_parse_generics_sg.
+  eapply sg_bind with (P := oforall V).
+  { destruct (is_eco kind); [apply look_sgV; assumption | apply sg_ret; [assumption | exact I]]. }
+  intros mst5 mla5 mHI5 mHla5. destruct mla5 as [mj5|].
+  { simpl in mHla5. eapply sg_bind; [apply decl_implicit_tokens_sg; eassumption |].
+    intros mst6 mi6 mHI6 mHv6. apply IH; assumption. }
+  clear mHla5.
+  eapply sg_bind; [apply look_sgV; eassumption |]. intros mst7 mla7 mHI7 mHla7.
+  eapply sg_bind with (P := fun ka : option (nat * assoc) => match ka with Some (k, _) => V k | None => True end).
+  { destruct mla7 as [mj7|]; [apply sg_ret; assumption|].
+    eapply sg_bind; [apply look_sgV; eassumption |]. intros mst8 mla8 mHI8 mHla8.
+    destruct mla8 as [mj8|]; [apply sg_ret; assumption|].
+    eapply sg_bind; [apply look_sgV; eassumption |]. intros mst9 mla9 mHI9 mHla9.
+    destruct mla9 as [mj9|]; apply sg_ret; try assumption; try exact I. }
+  intros mst10 ka mHI10 Hka. destruct ka as [[k a]|]; [|apply sg_fail; assumption].
+  eapply sg_bind; [apply decl_prec_sg; eassumption |].
+  intros mst11 mi11 mHI11 mHv11. apply IH; assumption.
+Qed.
+
+Lemma parse_declarations_sg : forall st i, SI st -> V i ->
+  sg V (parse_declarations fixed kind src len fuel st i).
+Proof.
+  intros st i HI Hv. unfold parse_declarations. bws st1 i1 HI1 Hv1. apply decl_loop_sg; assumption.
+Qed.
+
+(* ======================================================================== *)
+(*  parse_rules / parse_programs / parse                                      *)
+(* ======================================================================== *)
+Local Notation swf := (syms_wf src).
+Local Notation AW := (act_wf fixed_aspan src).
+
+Lemma add_prod_st_sg : forall st rn syms prec action pstart pend i,
+  SI st -> swf syms -> AW action -> V pstart -> oforall V pend -> V i ->
+  sg (fun _ : unit => True) (add_prod_st st rn syms prec action pstart pend i).
+Proof.
+  intros st rn syms prec action pstart pend i HI Hs Ha Hps Hpe Hv. unfold add_prod_st.
+  eapply sg_bind; [apply sg_span; [exact HI | exact Hps | destruct pend; assumption] |].
+  intros st1 sp HI1 Hsp.
+  destruct (add_prod (ast st1) rn syms prec action sp) as [a'| |] eqn:Hadd; simpl; try exact I.
+  split; [|exact I]. apply SI_set_ast; [exact HI1|].
+  exact (awf_add_prod fixed_aspan src _ _ _ _ _ _ _ (SI_awf _ _ _ HI1) Hs Ha Hsp Hadd).
+Qed.
+
+Ltac optlook :=
+  match goal with
+  | |- sg _ (if is_some ?t then ret _ ?t else look _ _ _ _) =>
+      destruct (is_some t);
+      [apply sg_ret; [eassumption | exact I]
+      | eapply sg_weaken; [|apply look_sg; eassumption]; intros; exact I]
+  end.
+
+Lemma rule_loop_sg : forall f st rn i syms prec action pstart pend,
+  SI st -> V i -> swf syms -> AW action -> V pstart -> oforall V pend ->
+  sg V (rule_loop fixed fixed_aspan src len fuel f st rn i syms prec action pstart pend).
+Proof.
+  induction f as [|f IH]; intros st rn i syms prec action pstart pend HI Hv Hs Ha Hps Hpe; [exact I|].
+  cbn [rule_loop]. destruct (negb (i <? len)); [apply sg_fail; assumption|].
+  cbn zeta.
+  assert (Hnext : forall st' i' syms' prec' action' pend',
+            SI st' -> V i' -> swf syms' -> AW action' -> oforall V pend' ->
+            sg V (sbind (WS st' i' true)
+                        (fun st i => rule_loop fixed fixed_aspan src len fuel f st rn i syms' prec' action' pstart pend'))).
+  { intros st' i' syms' prec' action' pend' HI' Hv' Hs' Ha' Hpe'.
+    bws st2 i2 HI2 Hv2. apply IH; assumption. }
+  (* | *)
+  blook st1 la1 HI1 Hla1. destruct la1 as [j1|].
+  { destruct (lookP_some _ _ _ Hla1) as [Hvj1 _].
+    eapply sg_bind; [apply add_prod_st_sg; assumption |].
+    intros st2 u HI2 _. bws st3 i3 HI3 Hv3.
+    apply IH; try assumption; [constructor | exact I | exact I]. }
+  clear Hla1.
+  (* ; *)
+  blook st2 la2 HI2 Hla2. destruct la2 as [j2|].
+  { destruct (lookP_some _ _ _ Hla2) as [Hvj2 _].
+    eapply sg_bind; [apply add_prod_st_sg; assumption |].
+    intros st3 u HI3 _. apply sg_ret; assumption. }
+  clear Hla2.
+  (* quoted token *)
+  blook st3 l1 HI3 Hl1. clear Hl1.
+  eapply sg_bind with (P := fun _ : option nat => True); [optlook|].
+  intros st4 l2 HI4 _. destruct (is_some l2).
+  { blift parse_token_E st5 t HI5 Ht. destruct t as [[[j sym] sp] q]. simpl in Ht. destruct Ht as [Hvj Hsp].
+    bws st6 i6 HI6 Hv6.
+    apply Hnext; [| exact Hv6 | apply Forall_snoc; [exact Hs | exact Hsp] | exact Ha | exact Hvj].
+    apply SI_set_ast; [exact HI6|]. apply awf_tokens_insert; [apply SI_awf; exact HI6 | exact Hsp]. }
+  (* %prec *)
+  blook st5 la5 HI5 Hla5. destruct la5 as [j5|].
+  { destruct (lookP_some _ _ _ Hla5) as [Hvj5 _].
+    bws st6 i6 HI6 Hv6.
+    blift parse_token_E st7 t HI7 Ht. destruct t as [[[k sym] sp] q]. simpl in Ht. destruct Ht as [Hvk Hsp].
+    apply Hnext; [| exact Hvk | exact Hs | exact Ha | exact Hvk].
+    apply SI_set_ast; [exact HI7|]. apply awf_tokens_insert; [apply SI_awf; exact HI7 | exact Hsp]. }
+  clear Hla5.
+  (* action *)
+  blook st6 la6 HI6 Hla6. destruct la6 as [j6|]; cbn [is_some].
+  { destruct Hla6 as [[Hj6 Hvj6] Heq6]. change (byte_len kw_lbrace) with 1 in Hj6. subst j6.
+    eapply sg_bind.
+    { apply sg_lift_nn with (P := fun r : nat * str => V (fst r) /\ act_rel src i (fst r) (snd r)); [exact HI6|].
+      exact (parse_action_E src fuel (nn st6) i (i + 1) Hfuel Hv Heq6). }
+    intros st7 t HI7 Ht. destruct t as [j a]. simpl in Ht. destruct Ht as [Hvj Hrel].
+    bws st8 i8 HI8 Hv8.
+    eapply sg_bind with (P := fun asp : span => AW (Some (a, asp))).
+    { destruct (action_span fixed_aspan src (i + 1) a) as [asp| |] eqn:Hasp; simpl; try exact I.
+      split; [exact HI8 | exact (action_span_wf _ _ _ _ _ _ Hrel Hasp)]. }
+    intros st9 asp HI9 Hasp.
+    blook st10 t1 HI10 Ht1. clear Ht1.
+    eapply sg_bind with (P := fun _ : option nat => True); [optlook|].
+    intros st11 t2 HI11 _. destruct (negb (is_some t2)); [apply sg_fail; assumption|].
+    apply Hnext; [exact HI11 | exact Hv8 | exact Hs | exact Hasp | exact Hv]. }
+  clear Hla6.
+  (* %empty *)
+  blook st7 la7 HI7 Hla7. destruct la7 as [j7|].
+  { destruct (lookP_some _ _ _ Hla7) as [Hvj7 _].
+    bws st8 k HI8 Hvk.
+    blook st9 t1 HI9 Ht1. clear Ht1.
+    eapply sg_bind with (P := fun _ : option nat => True); [optlook|].
+    intros st10 t2 HI10 _.
+    eapply sg_bind with (P := fun _ : option nat => True); [optlook|].
+    intros st11 t3 HI11 _.
+    eapply sg_bind with (P := fun _ : option nat => True); [optlook|].
+    intros st12 t4 HI12 _.
+    destruct (negb match syms with [] => true | _ :: _ => false end || negb (is_some t4));
+      [apply sg_fail; assumption|].
+    apply Hnext; [exact HI12 | exact Hvk | exact Hs | exact Ha | exact Hvj7]. }
+  clear Hla7.
+  (* a name: token or rule reference *)
+  blift parse_token_E st8 t HI8 Ht. destruct t as [[[j sym] sp] q]. simpl in Ht. destruct Ht as [Hvj Hsp].
+  apply Hnext; [exact HI8 | exact Hvj | | exact Ha | exact Hvj].
+  apply Forall_snoc; [exact Hs|].
+  match goal with |- context [if ?b then SToken _ _ else SRule _ _] => destruct b end; exact Hsp.
+Qed.
+
+Lemma ensure_rule_SI : forall st rn sp at_, SI st -> W sp ->
+  SI (match get_rule (a_rules (ast st)) rn with
+      | None => set_ast st (add_rule (ast st) rn sp at_)
+      | Some _ => st
+      end).
+Proof.
+  intros st rn sp at_ HI Hw. destruct (get_rule (a_rules (ast st)) rn); [exact HI|].
+  apply SI_set_ast; [exact HI|]. apply awf_add_rule; [apply SI_awf; exact HI | exact Hw].
+Qed.
+
+Lemma parse_rule_sg : forall st i, SI st -> V i ->
+  sg V (parse_rule fixed fixed_aspan kind src len fuel st i).
+Proof.
+  intros st i HI Hv. unfold parse_rule.
+  blift parse_name_E st1 t HI1 Ht. destruct t as [j rn]. simpl in Ht.
+  bspan st2 sp HI2 Hsp.
+  set (st3 := match a_start (ast st2) with
+              | Some _ => st2
+              | None => set_ast st2 (upd_start (ast st2) (Some (rn, sp)))
+              end).
+  assert (HI3 : SI st3).
+  { subst st3. destruct (a_start (ast st2)); [exact HI2|].
+    apply SI_set_ast; [exact HI2|]. apply awf_upd_start; [apply SI_awf; exact HI2 | exact Hsp]. }
+  clearbody st3.
+  eapply sg_bind with (P := V).
+  { destruct kind.
+    - apply sg_ret; [apply ensure_rule_SI; assumption | exact Ht].
+    - bws st4 i4 HI4 Hv4.
+      blook st5 la HI5 Hla. destruct la as [j5|]; [|apply sg_fail; assumption].
+      destruct (lookP_some _ _ _ Hla) as [Hvj5 _].
+      bws st6 i6 HI6 Hv6.
+      eapply sg_bind.
+      { apply sg_lift_nn with (P := fun r : nat * str => V (fst r)); [exact HI6|].
+        exact (parse_to_single_colon_E src fuel (nn st6) i6 Hv6). }
+      intros st7 t7 HI7 Ht7. destruct t7 as [j7 actiont]. simpl in Ht7.
+      apply sg_ret; [apply ensure_rule_SI; assumption | exact Ht7].
+    - apply sg_ret; [apply ensure_rule_SI; assumption | exact Ht]. }
+  intros st4 i4 HI4 Hv4.
+  bws st5 i5 HI5 Hv5.
+  blook st6 la HI6 Hla. destruct la as [j6|]; [|apply sg_fail; assumption].
+  destruct (lookP_some _ _ _ Hla) as [Hvj6 _].
+  bws st7 i7 HI7 Hv7.
+  apply rule_loop_sg; try assumption; [constructor | exact I | exact I].
+Qed.
+
+Lemma rules_loop_sg : forall f st i, SI st -> V i ->
+  sg V (rules_loop fixed fixed_aspan kind src len fuel f st i).
+Proof.
+  induction f as [|f IH]; intros st i HI Hv; [exact I|].
+  cbn [rules_loop]. destruct (negb (i <? len)); [apply sg_ret; assumption|].
+  blook st1 la HI1 Hla. destruct la as [k|]; cbn [is_some]; [apply sg_ret; assumption|].
+  eapply sg_bind; [apply parse_rule_sg; assumption |].
+  intros st2 i2 HI2 Hv2. bws st3 i3 HI3 Hv3. apply IH; assumption.
+Qed.
+
+Lemma parse_rules_sg : forall st i, SI st -> V i ->
+  sg V (parse_rules fixed fixed_aspan kind src len fuel st i).
+Proof.
+  intros st i HI Hv. unfold parse_rules.
+  blook st1 la HI1 Hla. destruct la as [j|]; [|exact I].
+  destruct (lookP_some _ _ _ Hla) as [Hvj _].
+  bws st2 i2 HI2 Hv2. apply rules_loop_sg; assumption.
+Qed.
+
+Lemma parse_programs_sg : forall st i, SI st -> V i ->
+  sg (fun _ : nat => True) (parse_programs fixed src len fuel st i).
+Proof.
+  intros st i HI Hv. unfold parse_programs.
+  blook st1 la HI1 Hla. destruct la as [j|]; [|apply sg_ret; [assumption | exact I]].
+  destruct (lookP_some _ _ _ Hla) as [Hvj _].
+  bws st2 i2 HI2 Hv2.
+  destruct (slice_from src i2) as [prog| |]; simpl; try exact I.
+  split; [|exact I]. apply SI_set_ast; [exact HI2|]. apply awf_upd_programs. apply SI_awf; exact HI2.
+Qed.
+
+Lemma SI_st0 : SI st0.
+Proof.
+  unfold YpSpans.SI, st0. simpl. split; [constructor|]. split; [apply awf_new | exact I].
+Qed.
+
+Lemma parse_spans : forall st es,
+  parse fixed fixed_aspan kind src len fuel = Done (st, es) -> SI st /\ Forall (ewf src) es.
+Proof.
+  intros st es H. unfold parse in H.
+  pose proof (parse_declarations_sg st0 0 SI_st0 (vpos_0 src)) as H1.
+  destruct (parse_declarations fixed kind src len fuel st0 0) as [[st1 [i1|e1]]| |];
+    cbn [obind] in H; try discriminate H; simpl in H1.
+  2:{ injection H as <- <-. destruct H1 as [HI1 He1]. split; [exact HI1|].
+      apply Forall_snoc; [exact (proj1 HI1) | exact He1]. }
+  destruct H1 as [HI1 Hv1].
+  pose proof (parse_rules_sg st1 i1 HI1 Hv1) as H2.
+  destruct (parse_rules fixed fixed_aspan kind src len fuel st1 i1) as [[st2 [i2|e2]]| |];
+    cbn [obind] in H; try discriminate H; simpl in H2.
+  2:{ injection H as <- <-. destruct H2 as [HI2 He2]. split; [exact HI2|].
+      apply Forall_snoc; [exact (proj1 HI2) | exact He2]. }
+  destruct H2 as [HI2 Hv2].
+  pose proof (parse_programs_sg st2 i2 HI2 Hv2) as H3.
+  destruct (parse_programs fixed src len fuel st2 i2) as [[st3 [i3|e3]]| |];
+    cbn [obind] in H; try discriminate H; simpl in H3.
+  - injection H as <- <-. destruct H3 as [HI3 _]. split; [exact HI3 | exact (proj1 HI3)].
+  - injection H as <- <-. destruct H3 as [HI3 He3]. split; [exact HI3|].
+    apply Forall_snoc; [exact (proj1 HI3) | exact He3].
+Qed.
+
+End Decls.
+
+(* ======================================================================== *)
+(*  complete_and_validate and warnings                                        *)
+(* ======================================================================== *)
+Section Validate.
+Variable fa : bool.
+Variable src : str.
+Local Notation W := (wfs src).
+Local Notation awf := (awf fa src).
+
+Lemma W00 : W (0, 0).
+Proof. apply wfs_point. apply vpos_0. Qed.
+
+Lemma ewf_one : forall k sp, W sp -> ewf src (mkErr k [sp]).
+Proof. intros k sp H. unfold ewf. simpl. constructor; [exact H | constructor]. Qed.
+
+Lemma validate_syms_wf : forall a syms e, syms_wf src syms -> validate_syms a syms = Some e -> ewf src e.
+Proof.
+  intros a syms e. induction syms as [|s syms IH]; intros Hs H; simpl in H; [discriminate H|].
+  inversion Hs as [|? ? Hs1 Hs2]; subst. destruct s as [n sp|n sp].
+  - destruct (has_rule a n); [apply IH; assumption|]. injection H as <-. apply ewf_one. exact Hs1.
+  - destruct (has_token a n); [apply IH; assumption|]. injection H as <-. apply ewf_one. exact Hs1.
+Qed.
+
+Lemma validate_prod_wf : forall a p e, prod_wf fa src p -> validate_prod a p = Some e -> ewf src e.
+Proof.
+  intros a p e [Hs _] H. unfold validate_prod in H.
+  destruct (p_prec p) as [n|].
+  - destruct (negb (has_token a n)); [injection H as <-; apply ewf_one; exact W00|].
+    destruct (negb (is_some (assoc_get (a_precs a) n))); [injection H as <-; apply ewf_one; exact W00|].
+    eapply validate_syms_wf; eassumption.
+  - eapply validate_syms_wf; eassumption.
+Qed.
+
+Lemma validate_pidxs_wf : forall a pidxs e, Forall (prod_wf fa src) (a_prods a) ->
+  validate_pidxs a pidxs = Done (Some e) -> ewf src e.
+Proof.
+  intros a pidxs e Hp. induction pidxs as [|pidx rest IH]; intros H; simpl in H; [discriminate H|].
+  unfold nth_checked in H. destruct (nth_error (a_prods a) pidx) as [p|] eqn:Hn; cbn [obind] in H; [|discriminate H].
+  destruct (validate_prod a p) as [e'|] eqn:Hv.
+  - injection H as <-. eapply validate_prod_wf; [|exact Hv].
+    rewrite Forall_forall in Hp. apply Hp. eapply nth_error_In. exact Hn.
+  - apply IH. exact H.
+Qed.
+
+Lemma validate_rules_wf : forall a rs e, Forall (prod_wf fa src) (a_prods a) ->
+  validate_rules a rs = Done (Some e) -> ewf src e.
+Proof.
+  intros a rs e Hp. induction rs as [|r rest IH]; intros H; simpl in H; [discriminate H|].
+  destruct (validate_pidxs a (r_pidxs r)) as [[e'|]| |] eqn:Hv; cbn [obind] in H; try discriminate H.
+  - injection H as <-. eapply validate_pidxs_wf; eassumption.
+  - apply IH. exact H.
+Qed.
+
+Lemma first_unknown_epp_wf : forall a l e,
+  Forall (fun x : str * (span * (str * span)) => W (fst (snd x)) /\ W (snd (snd (snd x)))) l ->
+  first_unknown_epp a l = Some e -> ewf src e.
+Proof.
+  intros a l e. induction l as [|[k [sp v]] l IH]; intros Hl H; simpl in H; [discriminate H|].
+  inversion Hl as [|? ? H1 H2]; subst.
+  destruct (has_token a k); [apply IH; assumption|].
+  destruct (match a_implicit_tokens a with Some it => is_some (assoc_get it k) | None => false end);
+    [apply IH; assumption|].
+  injection H as <-. apply ewf_one. exact (proj1 H1).
+Qed.
+
+Lemma validate_expect_unused_wf : forall a l e, syms_wf src l ->
+  validate_expect_unused a l = Some e -> ewf src e.
+Proof.
+  intros a l e. induction l as [|s l IH]; intros Hs H; simpl in H; [discriminate H|].
+  inversion Hs as [|? ? Hs1 Hs2]; subst. destruct s as [n sp|n sp].
+  - destruct (has_rule a n); [apply IH; assumption|]. injection H as <-. apply ewf_one. exact Hs1.
+  - destruct (has_token a n); [apply IH; assumption|]. injection H as <-. apply ewf_one. exact Hs1.
+Qed.
+
+Lemma complete_and_validate_wf : forall a e, awf a ->
+  complete_and_validate a = Done (Some e) -> ewf src e.
+Proof.
+  intros a e Ha H. unfold complete_and_validate in H.
+  destruct Ha as (H1 & H2 & H3 & H4 & H5 & H6 & H7 & H8 & H9 & H10 & H11).
+  destruct (a_start a) as [[s sp]|].
+  2:{ injection H as <-. apply ewf_one. exact W00. }
+  destruct (negb (has_rule a s)); [injection H as <-; apply ewf_one; exact H1|].
+  destruct (validate_rules a (a_rules a)) as [[e'|]| |] eqn:Hv; cbn [obind] in H; try discriminate H.
+  { injection H as <-. eapply validate_rules_wf; eassumption. }
+  destruct (first_unknown_epp a (a_epp a)) as [e'|] eqn:He.
+  { injection H as <-. eapply first_unknown_epp_wf; eassumption. }
+  injection H as H. eapply validate_expect_unused_wf; eassumption.
+Qed.
+
+(* the token loop of GrammarAST::warnings, with its skip test abstracted *)
+Lemma toks_wf : forall (c : str -> bool) (spans : list span), Forall W spans -> forall l k r,
+  (fix toks (l : list str) (k : nat) {struct l} : outcome (list (wkind * span)) :=
+     match l with
+     | [] => Done []
+     | t :: l' =>
+         do rest <- toks l' (S k);
+         if c t then Done rest
+         else do sp <- nth_checked spans k; Done ((UnusedToken, sp) :: rest)
+     end) l k = Done r -> Forall W (map snd r).
+Proof.
+  intros c spans Hsp. induction l as [|t l IH]; intros k r H.
+  - injection H as <-. constructor.
+  - match type of H with obind ?x _ = _ => destruct x as [rest| |] eqn:Hr end; cbn [obind] in H;
+      try discriminate H.
+    specialize (IH _ _ Hr).
+    destruct (c t); [injection H as <-; exact IH|].
+    unfold nth_checked in H. destruct (nth_error spans k) as [sp|] eqn:Hn; cbn [obind] in H; [|discriminate H].
+    injection H as <-. simpl. constructor; [|exact IH].
+    rewrite Forall_forall in Hsp. apply Hsp. eapply nth_error_In. exact Hn.
+Qed.
+
+Lemma warnings_wf : forall a l, awf a -> warnings a = Done l -> Forall W (map snd l).
+Proof.
+  intros a l Ha H. unfold warnings in H.
+  destruct Ha as (H1 & H2 & H3 & H4 & _).
+  match type of H with obind ?x _ = _ => destruct x as [[seen_r seen_t]| |] end; cbn [obind] in H;
+    try discriminate H.
+  match type of H with obind ?x _ = _ => destruct x as [wt| |] eqn:Hwt end; cbn [obind] in H;
+    try discriminate H.
+  injection H as <-. rewrite map_app. apply Forall_app. split.
+  - apply Forall_forall. intros sp Hin. apply in_map_iff in Hin. destruct Hin as [[wk sp'] [Heq Hin]].
+    simpl in Heq. subst sp'. apply in_flat_map in Hin. destruct Hin as [r [Hr Hin]].
+    destruct (_ || _) in Hin; [destruct Hin|]. destruct Hin as [Hin|[]]. injection Hin as _ <-.
+    rewrite Forall_forall in H2. apply H2. exact Hr.
+  - eapply toks_wf; [exact H4 | exact Hwt].
+Qed.
+
+(* ---- from the structured invariant to the flat span lists ------------------ *)
+Lemma Forall_map_intro : forall {A B} (P : B -> Prop) (f : A -> B) l,
+  Forall (fun x => P (f x)) l -> Forall P (map f l).
+Proof. intros A B P f l H. induction H; simpl; constructor; assumption. Qed.
+
+Lemma Forall_flat_map_intro : forall {A B} (P : B -> Prop) (f : A -> list B) l,
+  Forall (fun x => Forall P (f x)) l -> Forall P (flat_map f l).
+Proof. intros A B P f l H. induction H; simpl; [constructor | apply Forall_app; split; assumption]. Qed.
+
+Lemma opt_map_wf : forall {A} (f : A -> span) (o : option A),
+  oforall (fun x => W (f x)) o -> Forall W (map f (opt_list o)).
+Proof. intros A f [x|] H; simpl; [constructor; [exact H | constructor] | constructor]. Qed.
+
+Lemma opt_nsp_wf : forall (o : option (list (str * span))),
+  oforall (nsp_wf src) o -> Forall W (map snd (concat (opt_list o))).
+Proof.
+  intros [m|] H; simpl; [|constructor]. rewrite app_nil_r. apply Forall_map_intro. exact H.
+Qed.
+
+Lemma ast_spans_wf : forall a, awf a -> Forall W (ast_spans a).
+Proof.
+  intros a (H1 & H2 & H3 & H4 & H5 & H6 & H7 & H8 & H9 & H10 & H11). unfold ast_spans.
+  repeat (apply Forall_app; split).
+  - apply opt_map_wf. exact H1.
+  - apply Forall_map_intro. exact H2.
+  - apply Forall_flat_map_intro. eapply Forall_impl; [|exact H3]. intros p [Hs [Hp _]].
+    constructor; [exact Hp | apply Forall_map_intro; exact Hs].
+  - exact H4.
+  - apply Forall_map_intro. exact H5.
+  - apply opt_nsp_wf. exact H6.
+  - apply opt_nsp_wf. exact H7.
+  - apply Forall_flat_map_intro. eapply Forall_impl; [|exact H8]. intros x [Ha Hb].
+    constructor; [exact Ha | constructor; [exact Hb | constructor]].
+  - apply opt_map_wf. exact H9.
+  - apply opt_map_wf. exact H10.
+  - apply Forall_map_intro. exact H11.
+Qed.
+
+Lemma action_spans_start : forall a, awf a -> Forall (wf_span_start src) (action_spans a).
+Proof.
+  intros a (_ & _ & H3 & _). unfold action_spans. apply Forall_flat_map_intro.
+  eapply Forall_impl; [|exact H3]. intros p [_ [_ Hact]].
+  destruct (p_action p) as [[t sp]|]; simpl; [|constructor].
+  destruct Hact as [Hs [Hle [Hlen _]]]. constructor; [|constructor].
+  split; [exact Hle|]. split; [exact Hlen | apply boundary_vpos; exact Hs].
+Qed.
+
+Lemma action_spans_full : forall a, fa = true -> awf a -> Forall (wf_span src) (action_spans a).
+Proof.
+  intros a Hfa (_ & _ & H3 & _). unfold action_spans. apply Forall_flat_map_intro.
+  eapply Forall_impl; [|exact H3]. intros p [_ [_ Hact]].
+  destruct (p_action p) as [[t sp]|]; simpl; [|constructor].
+  destruct Hact as [Hs [Hle [Hlen He]]]. constructor; [|constructor].
+  apply wfs_wf_span. split; [exact Hs | split; [exact (He Hfa) | exact Hle]].
+Qed.
+
+Lemma error_spans_wf : forall es, Forall (ewf src) es -> Forall (wf_span src) (error_spans es).
+Proof.
+  intros es H. unfold error_spans. apply Forall_flat_map_intro. eapply Forall_impl; [|exact H].
+  intros e He. eapply Forall_impl; [|exact He]. intros sp. apply wfs_wf_span.
+Qed.
+
+End Validate.
+
+(* ======================================================================== *)
+(*  The statements                                                            *)
+(* ======================================================================== *)
+Lemma yacc_error_spans_wellformed : yacc_error_spans_wellformed_stmt.
+Proof.
+  intros fixed fixed_aspan kind src r Hrun. unfold run_case, yacc_new_gen in Hrun.
+  destruct (header_present src); [injection Hrun as <-; exact I|].
+  assert (Hfuel : byte_len src < fuel_for src) by (unfold fuel_for; lia).
+  destruct (parse fixed fixed_aspan kind src (byte_len src) (fuel_for src)) as [[st es]| |] eqn:Hp;
+    cbn [obind] in Hrun; try discriminate Hrun.
+  destruct (parse_spans fixed fixed_aspan kind src (fuel_for src) Hfuel st es Hp) as [HI Hes].
+  pose proof (SI_awf _ _ _ HI) as Ha.
+  destruct (complete_and_validate (ast st)) as [v| |] eqn:Hv; cbn [obind] in Hrun; try discriminate Hrun.
+  injection Hrun as <-.
+  split; [|split; [|split; [|split]]].
+  - apply error_spans_wf. apply Forall_app. split; [exact Hes|].
+    destruct v as [e|]; [|constructor]. constructor; [|constructor].
+    eapply complete_and_validate_wf; eassumption.
+  - destruct (warnings (ast st)) as [l| |] eqn:Hw; simpl; try constructor.
+    eapply Forall_impl; [|eapply warnings_wf; eassumption]. intros sp. apply wfs_wf_span.
+  - eapply Forall_impl; [|apply (ast_spans_wf fixed_aspan); exact Ha]. intros sp. apply wfs_wf_span.
+  - apply (action_spans_start fixed_aspan). exact Ha.
+  - intros Hfa. apply (action_spans_full fixed_aspan); assumption.
+Qed.
+
+Lemma yacc_action_span_boundary_fixed : yacc_action_span_boundary_fixed_stmt.
+Proof.
+  intros fixed kind src a errs w Hrun.
+  pose proof (yacc_error_spans_wellformed fixed true kind src _ Hrun) as H. simpl in H.
+  destruct H as (_ & _ & _ & _ & H). apply H. reflexivity.
+Qed.
+
+(* "%%\nA:{ →};" (→ = U+2192, bytes 7..9): the action "→" gets the span (6, 9) *)
+Definition aspan_witness : str := [37; 37; 10; 65; 58; 123; 32; 8594; 125; 59]%N.
+
+Lemma yacc_action_span_boundary_refuted : yacc_action_span_boundary_refuted_stmt.
+Proof.
+  exists false, KOriginal, aspan_witness. do 2 eexists. exists (6, 9).
+  split; [vm_compute; reflexivity|]. split; [vm_compute; left; reflexivity|].
+  vm_compute. intros H. repeat (destruct H as [H|H]; [discriminate H|]). exact H.
+Qed.
+
+(* "%start A\n%start A\n%token x\n%%\nA: 'a' { b };" *)
+Definition spans_example : str :=
+  [37;115;116;97;114;116;32;65;10; 37;115;116;97;114;116;32;65;10; 37;116;111;107;101;110;32;120;10;
+   37;37;10; 65;58;32;39;97;39;32;123;32;98;32;125;59]%N.
+
+Lemma yacc_spans_example : yacc_spans_example_stmt.
+Proof.
+  exists spans_example. do 3 eexists.
+  split; [vm_compute; reflexivity|]. repeat split; discriminate.
+Qed.
